@@ -57,8 +57,35 @@ fn main() {
             if a.len() < 5 {
                 usage();
             }
-            let cell = e2_checks2::C05Cell { n: a[0] as usize, side_a: a[1] as usize, phase: a[2], start_event: a[3], extra: a[4], asymmetric: a[1] == 0, bumped: a.get(5).copied().unwrap_or(0) == 1, twice: a.get(5).copied().unwrap_or(0) == 2 };
+            let cell = e2_checks2::C05Cell { n: a[0] as usize, side_a: a[1] as usize, phase: a[2], start_event: a[3], extra: a[4], asymmetric: a[1] == 0, bumped: a.get(5).copied().unwrap_or(0) == 1, twice: a.get(5).copied().unwrap_or(0) == 2, mt: a.get(6).copied().unwrap_or(5) as u8 };
             exit(e2_checks2::c05_show(&cell, &Default::default()));
+        }
+        "c04-cell" => {
+            // verif c04-cell <n> <notify_down 0|1> <renew 0|1> <fanout> <mt> <flavour> <phase> <suspect> <drop> [<point> <alt>]...
+            let a: Vec<u64> = args[2..].iter().filter_map(|s| s.parse().ok()).collect();
+            if a.len() < 9 {
+                usage();
+            }
+            let cell = e2_checks::C04Cell { n: a[0] as usize, notify_down: a[1] == 1, renew: a[2] == 1, fanout: a[3] as usize, mt: a[4] as u8, flavour: a[5] as u8, phase: a[6], suspect: a[7], drop: a[8] };
+            let mut devs = std::collections::BTreeMap::new();
+            for p in a[9..].chunks(2) {
+                if p.len() == 2 {
+                    devs.insert(p[0] as usize, p[1] as usize);
+                }
+            }
+            let mut res = None;
+            let tr = e2::trace_one(100_000, || {
+                res = Some(e2_checks::run_c04(&cell, &devs));
+            });
+            for l in tr {
+                println!("{l}");
+            }
+            let r = res.unwrap();
+            println!("cell {}", cell.label());
+            for (s, w) in &r.violations {
+                println!("VIOLATED [{s}] {w}");
+            }
+            exit(if r.violations.is_empty() { 0 } else { 1 });
         }
         "abort-demo-decode" => {
             if args.len() < 3 {
